@@ -257,6 +257,10 @@ class ProgGen:
         self.error_mode = rng.random() < 0.08 if flavour == "slots" else False
         self.default_name = {}
         self.in_between = 0
+        # C01 only: the loop that produces looped fills may re-use the variable name of a loop around the component tag (in a
+        # lexically scoped fill inside a component template this meets the listed finding of C01 / C03, which only C01 and
+        # C03 can attribute)
+        self.shadow_loops = False
 
     def t(self):
         self.tok += 1
@@ -649,7 +653,7 @@ class ProgGen:
                 site = self.newsite()
                 var = f"v{site}"
                 outer_simple = [l for l in loops if isinstance(l, tuple)]
-                if outer_simple and rng.random() < 0.4:
+                if self.shadow_loops and outer_simple and rng.random() < 0.4:
                     # the loop that produces the fills re-uses the variable name of a loop AROUND the component tag:
                     # inside the fill (and for a pass-through {% slot name=var %}) the nearer loop wins
                     var = rng.choice(outer_simple)[0]
